@@ -76,6 +76,12 @@ def run(ctx, chk):
         name = i['msg_name']
         where = p.where[2]
         if i['recv_err'] or name is None:
+            # no message was received on this path (a mailbox error, a timed-out wait): nothing happened that the record may
+            # follow -- (d) the status depends only on the latest *outcome*, and silence of the mailbox is not one
+            touched = sorted(k for k in i['stores'] if k in (bound_f, asof_f) or (m.state_field and k.split('.')[0] == m.state_field.split('.')[0]))
+            chk.ob('C08.F', 'dispatch:no-message:no-state-change', not i['applied'] and i['writes'] == 0 and not touched, where,
+                   'a path without a received message (mailbox error / time-out) feeds %s to the FSM, assigns %s, publishes %d time(s)' % (
+                       i['applied'], touched, i['writes']), nontrivial=bool(i['recv_err']))
             continue
         seen.setdefault(name, []).append(i)
         stores_b, stores_a = bound_f in i['stores'], asof_f in i['stores']
